@@ -4,6 +4,7 @@ Model: `Model/Dest.lean` (`encodeDgram`, `readDgram`, `readDgrams`, `encodeUdpRe
 `decodeUdpRequest`).  The byte stream they ride on is C01's lossless pipe.
 -/
 import AnyTLS.Lemmas.Dest
+import AnyTLS.Lemmas.UdpRelay
 import AnyTLS.Props.C01
 import AnyTLS.Props.C07
 
@@ -134,5 +135,73 @@ theorem initial_request_roundtrip (d : Dest) (hd : d.WF) (tail enc : Bytes) (hen
 
 /-- non-vacuity: two datagrams, the second one's prefix split across chunks -/
 example : (readDgrams 5 { queue := [[0, 2, 7, 8, 0], [1, 9]] } []).1 = [[7, 8], [9]] := by decide
+
+/-! ### The four relay loops around the tunnel stream (M15, `Model/UdpRelay.lean`)
+
+`dgram_roundtrip` speaks about the encoder and the reader.  The loops that call them — which part of the receive
+buffer is encoded, how many chunks are submitted per datagram, whether the datagram read can be dropped half-way by a
+timer, which part of the payload goes to `send_to`, and in which address family the relay's socket is bound — are
+regenerated from the source into `Gen.udpSites` / `Gen.udpBind`; the theorems below are about those. -/
+
+open UdpRelay in
+/-- Obligation on the code (regenerated table): every udp → stream loop encodes `&buf[..len]`, every stream → udp loop
+awaits `read_udp_packet` bare and sends `&payload`. -/
+theorem udp_sites_sound : Gen.udpSites.all UdpRelay.sound = true := by decide
+
+/-- Obligation on the code: the relay's socket is bound in the address family of the target it has to reach (an
+IPv4-only socket cannot send to an IPv6 target: the defect repaired in `1be5866`). -/
+theorem relay_socket_family (f : UdpRelay.Family) : UdpRelay.bindFamily Gen.udpBind f = f := by
+  cases f <;> rfl
+
+theorem ipv4_only_bind_refuted : UdpRelay.bindFamily .anyV4 .v6 ≠ .v6 := by decide
+
+open UdpRelay in
+/-- T15.5: for every loop of the code that reads datagrams from a socket: whatever earlier datagrams left in the
+receive buffer, the tunnel stream is handed exactly one chunk per datagram, and that chunk is the datagram's exact
+length-prefixed image. -/
+theorem udp_to_stream_exact (s : Gen.UdpSite) (hs : s ∈ Gen.udpSites) (hd : s.dir = .toStream)
+    (buf : Bytes) (ds : List Bytes) (hds : ∀ d ∈ ds, d.length ≤ 65535) :
+    toStream 65535 s.slice buf ds = ds.map (fun d => be16 d.length ++ d) := by
+  have hsound := List.all_eq_true.mp udp_sites_sound s hs
+  simp only [sound, hd, beq_iff_eq] at hsound
+  rw [hsound]
+  exact toStream_prefixN 65535 ds buf hds
+
+open UdpRelay in
+/-- T15.6 `udp_tunnel_exact`: end to end over the two loops of one direction of an association.  `sa` is a loop of the
+code that reads datagrams from a socket, `sb` a loop of the code that sends them on the far side.  For every sequence of
+non-empty datagrams, every content of the receive buffer, every way the tunnel re-chunks the byte stream in between
+(`evs` carries the same bytes, C01) and every moment at which a timer fires on the far side, the far socket sends
+exactly those datagrams: one `send_to` each, identical contents, in order — never merged, split, truncated or dropped. -/
+theorem udp_tunnel_exact (sa sb : Gen.UdpSite) (ha : sa ∈ Gen.udpSites) (hb : sb ∈ Gen.udpSites)
+    (hda : sa.dir = .toStream) (hdb : sb.dir = .toUdp)
+    (buf : Bytes) (ds : List Bytes) (hds : ∀ d ∈ ds, 1 ≤ d.length ∧ d.length ≤ 65535)
+    (evs : List Ev) (hevs : flatten (chunksOf evs) = flatten (toStream Gen.udpMaxClient sa.slice buf ds)) :
+    toUdp Gen.udpMaxServer sb.slice sb.wrap [] evs = ds := by
+  have hmx := gen_udp_max
+  rw [hmx.1] at hevs
+  rw [hmx.2]
+  rw [udp_to_stream_exact sa ha hda buf ds (fun d hd => (hds d hd).2), flatten_map_enc] at hevs
+  have hsound := List.all_eq_true.mp udp_sites_sound sb hb
+  simp only [sound, hdb, Bool.and_eq_true, beq_iff_eq] at hsound
+  rw [hsound.1, hsound.2]
+  exact toUdp_bare_exact 65535 evs [] ds (fun d hd => ⟨(hds d hd).1, (hds d hd).2, (hds d hd).2⟩)
+    (by simpa using hevs) (by cases ds <;> simp [Short] <;> omega)
+
+/-- the two excluded shapes, refuted by witnesses.  A datagram read under a timer: the timer fires between the two
+chunks that carry the first datagram, the bytes consumed so far are dropped with the read, and the stream is parsed from
+the middle of a payload from then on. -/
+theorem timed_read_loses_datagrams :
+    UdpRelay.toUdp 65535 .whole .timed [] [.chunk [0, 2, 7], .tick, .chunk [8, 0, 1, 9]] ≠ [[7, 8], [9]] := by decide
+
+/-- the whole receive buffer instead of `&buf[..len]`: a short datagram after a longer one carries the tail of the
+longer one. -/
+theorem whole_buffer_pads_datagrams :
+    UdpRelay.toStream 65535 .whole [0, 0, 0] [[1, 2, 3], [4]] ≠ [[0, 3, 1, 2, 3], [0, 1, 4]] := by decide
+
+/-- non-vacuity of `udp_tunnel_exact`: two datagrams, a stale buffer, the prefix of the second cut across chunks, a
+timer between them -/
+example : UdpRelay.toUdp 65535 .whole .bare [] [.chunk [0, 2, 7, 8, 0], .tick, .chunk [1, 9]] = [[7, 8], [9]] ∧
+    flatten (UdpRelay.toStream 65535 .prefixN [5, 5, 5] [[7, 8], [9]]) = [0, 2, 7, 8, 0, 1, 9] := by decide
 
 end AnyTLS.C15
